@@ -395,6 +395,37 @@ func init() {
 					}
 				}
 			}
+			// "never returns a half-initialised result": the in-flight operation builds a consumer whose
+			// dependencies are OPTIONAL parameter-object fields (plain and group) of registered disposables that are
+			// constructed while the Close drains the scope - it either gets them or fails with the disposed error
+			for _, closer := range []string{"close-scope", "close-ancestor", "close-provider", "cancel"} {
+				for _, life := range []string{"scoped", "transient"} {
+					sc := c13Scenario(closer, "get-scoped", false)
+					sc.Name = fmt.Sprintf("close-vs-op-optional-fields/%s/%s", closer, life)
+					deps := []kit.Dep{{T: "D2", Opt: true}}
+					if life == "scoped" {
+						deps = append(deps, kit.Dep{T: "D1", Opt: true}, kit.Dep{T: "D3", Group: "g"})
+					}
+					sc.Spec.Regs = append(sc.Spec.Regs, kit.Reg{ID: 8, Life: life, In: true, Outs: []kit.Out{{T: "P3"}}, Deps: deps})
+					sc.Threads[1] = []Op{{Kind: "get", Scope: "s1", T: "P3"}}
+					om := NewModel(&sc.Spec)
+					jobs = append(jobs, mc.Job{Name: sc.Name, Run: func(r *mc.Report) {
+						exploreScenario(r, sc, mc.Bounds{Preempt: pb}, func(e *Env, s *vsched.Sched) []Finding {
+							fs := c13OverlapOracle(e, s)
+							if e.Prov == nil {
+								return fs
+							}
+							for _, f := range e.WiringOracle(om) {
+								if f.F["clause"] == "wrong-argument" {
+									f.F["clause"] = "half-initialised-result"
+									fs = append(fs, f)
+								}
+							}
+							return fs
+						})
+					}})
+				}
+			}
 			jobs = append(jobs, twoProvJob("C13", depth4(tier)))
 			return jobs
 		},
